@@ -198,10 +198,17 @@ def why_incomplete(F: Facts, ev, depth=0, seen=None):
         if c not in F.sig:
             causes |= why_incomplete(F, c, depth + 1, seen)
     if not causes:
-        # children all signalled, own processing finished, yet never signalled: the upward walk lost it
-        for c in F.kids.get(ev, ()):
-            if c in F.sig and evicted_in_flight(F, ev):
-                causes.add('F11')
+        # children all signalled, own processing finished, yet never signalled: the upward completion walk
+        # (a lookup of each parent id in the bus histories) stopped at an ancestor that had been evicted
+        for d in F.desc(ev):
+            sd = F.sig.get(d)
+            if sd is None:
+                continue
+            for x in ancestors(F, d):
+                if any(x in victims and seq < sd for seq, bus, before, victims, N in F.evicts):
+                    causes.add('F11')
+                if x == ev:
+                    break
     return causes
 
 
